@@ -162,13 +162,16 @@ def _has_slot(nodes):
     return any(n["t"] == "slot" for n in pgstrat.walk(nodes))
 
 
-def family_sources(nodes, prefix, mid):
+def family_sources(nodes, prefix, mid, noext=False):
     """Print a template whose AST contains block / include regions as an {% extends %} family.
 
     Returns (source of the template itself, {file name: source}). Region ops:
     keep (block in base, not overridden) | override (junk in base, real content in the child) |
     super (first node in the base block, rest appended in the child after {{ block.super }}) |
-    midsuper (base: node 1, middle template appends node 2, child appends the rest; needs `mid`).
+    midsuper (base: node 1, middle template appends node 2, child appends the rest; needs `mid`) |
+    superbody (the parent block holds ONE text node that the flat program has inside a component body / fill content
+    of the region; the child's override prints {{ block.super }} at that place).
+    noext: the template does not extend anything - its {% block %} tags are plain blocks that render in place.
     """
     files = {}
     child, midl = [], []
@@ -189,6 +192,15 @@ def family_sources(nodes, prefix, mid):
                 files[name] = P(region)
             return '{%% include "%s" %%}' % name
         name, op = n["name"], n["op"]
+        if noext:
+            op = "keep"
+        if op == "superbody":
+            marker = "%s:%s" % (prefix, name)
+            sup = [x for x in pgstrat.walk(region) if x["t"] == "text" and x.get("sup") == marker]
+            if len(sup) == 1:
+                child.append("{%% block %s %%}%s{%% endblock %%}" % (name, pg.p_nodes(region, dict(opts or {}, super_for=marker))))
+                return "{%% block %s %%}%s{%% endblock %%}" % (name, sup[0]["s"])
+            op = "super"
         if op == "keep":
             return "{%% block %s %%}%s{%% endblock %%}" % (name, P(region))
         if op == "override":
@@ -202,7 +214,7 @@ def family_sources(nodes, prefix, mid):
         return "{%% block %s %%}%s{%% endblock %%}" % (name, P(region[:1]))
 
     base = pg.p_nodes(nodes, {"block_printer": bp})
-    if not any(n["t"] == "block" for n in pgstrat.walk(nodes)):
+    if noext or not any(n["t"] == "block" for n in pgstrat.walk(nodes)):
         return base, files
     files["%s_base.html" % prefix] = base
     parent = "%s_base.html" % prefix
@@ -219,11 +231,11 @@ def check_compose(case, col=None):
     sources, files = {}, {}
     for c in prog["comps"]:
         if any(n["t"] in ("block", "include") for n in pgstrat.walk(c["tpl"])):
-            src, f = family_sources(c["tpl"], "f" + c["name"], bool(mids.get(c["name"])))
+            src, f = family_sources(c["tpl"], "f" + c["name"], bool(mids.get(c["name"])), bool(case.get("noext", {}).get(c["name"])))
             sources[c["name"]] = src
             files.update(f)
     if any(n["t"] in ("block", "include") for n in pgstrat.walk(prog["page"]["tpl"])):
-        src, f = family_sources(prog["page"]["tpl"], "fpage", bool(mids.get("page")))
+        src, f = family_sources(prog["page"]["tpl"], "fpage", bool(mids.get("page")), bool(case.get("noext", {}).get("page")))
         sources["page"] = src
         files.update(f)
     n_ext = sum(1 for s in sources.values() if "extends" in s)
@@ -259,6 +271,10 @@ def check_compose(case, col=None):
                 labels.append("three_level")
             if case.get("nested_block"):
                 labels.append("block_inside_fill_or_slot")
+            if any(case.get("noext", {}).values()):
+                labels.append("plain_blocks_in_a_template_without_extends")
+            if any(x.get("sup") for c_ in prog["comps"] + [prog["page"]] for x in pgstrat.walk(c_["tpl"]) if x["t"] == "text"):
+                labels.append("block_super_inside_component_body")
             col.case(jhash([case, mode]), nt, sample={"mode": mode, "sources": {k: v[:250] for k, v in sources.items()}, "files": {k: v[:200] for k, v in list(files.items())[:4]}, "output": a[:150]} if nt else None, labels=labels)
     for p in glob.glob(os.path.join(_tpl_dir(), "*.html*")):
         os.remove(p)
@@ -286,6 +302,8 @@ def _node_lists(nodes, depth=0, inside=None):
 def compose_cases(draw):
     prog = draw(pgstrat.programs({"errors": False, "max_nodes": 5, "max_depth": 2, "isfilled": True}))
     mids = {}
+    noext = {}
+    sup_n = [0]
     nested = False
     targets = [("page", prog["page"]["tpl"])] + [(c["name"], c["tpl"]) for c in prog["comps"]]
     for name, nodes in targets:
@@ -313,7 +331,7 @@ def compose_cases(draw):
                 # same fill); Django's {% block %} is not re-entrant by design (BlockContext pop/push), so such a
                 # template has no flattened equivalent
                 continue
-            op = draw(st.sampled_from(["keep", "override", "override", "super", "midsuper", "include"]))
+            op = draw(st.sampled_from(["keep", "override", "override", "super", "midsuper", "include", "superbody", "superbody"]))
             for sub, _d, _i in _node_lists(region):
                 taken.add(id(sub))
             if op == "include" or not names:
@@ -325,11 +343,27 @@ def compose_cases(draw):
                 lst[i:j] = [inc]
             else:
                 bname = names.pop(draw(st.integers(0, len(names) - 1)))
+                if op == "superbody":
+                    # content lists of component bodies / fills inside the region
+                    cands = []
+                    for y in pgstrat.walk(region):
+                        if y["t"] == "comp" and y.get("body"):
+                            if y["body"]["kind"] == "implicit":
+                                cands.append(y["body"]["c"])
+                            else:
+                                cands.extend(f_["c"] for f_ in pgstrat.walk(y["body"]["c"]) if f_["t"] == "fill")
+                    if cands:
+                        lst2 = cands[draw(st.integers(0, len(cands) - 1))]
+                        sup_n[0] += 1
+                        lst2.insert(draw(st.integers(0, len(lst2))), {"t": "text", "s": "SUP%d" % sup_n[0], "sup": "%s:%s" % ("fpage" if name == "page" else "f" + name, bname)})
+                    else:
+                        op = "super"
                 lst[i:j] = [{"t": "block", "name": bname, "op": op, "c": region}]
                 if depth > 0:
                     nested = True
         mids[name] = draw(st.integers(0, 99)) < 35
-    return {"kind": "compose", "program": prog, "mid": mids, "nested_block": nested}
+        noext[name] = draw(st.integers(0, 99)) < 20
+    return {"kind": "compose", "program": prog, "mid": mids, "noext": noext, "nested_block": nested}
 
 
 def _strip_nested_regions(nodes, depth=0, inside=False):
